@@ -421,6 +421,32 @@ def judge_promolecule(name, seed):
     return None
 
 
+def judge_big_grid(seed):
+    """a sampling box of about two million points (a 20-carbon chain along the body diagonal at separation 0.2): the surface is the same kind
+    of closed mesh around every atom as for a small box"""
+    from chmpy import PromoleculeDensity
+    from chmpy.surface import promolecule_density_isosurface
+    warnings.filterwarnings("ignore")
+    nrng = np.random.default_rng(seed)
+    d = np.array([1.0, 1.0, 1.0]) / math.sqrt(3)
+    perp = np.array([1.0, -1.0, 0.0]) / math.sqrt(2)
+    p = np.array([i * 1.27 * d + (0.42 if i % 2 else -0.42) * perp for i in range(20)]) + nrng.normal(size=3) * 3
+    pro = PromoleculeDensity((np.array([6] * 20), p))
+    iso = promolecule_density_isosurface(pro, isovalue=0.002, sep=0.2)
+    V, F = np.asarray(iso.vertices, float), np.asarray(iso.faces)
+    bad = mesh_topology(F.tolist())
+    if bad:
+        return f"big grid (C20 chain, sep 0.2, {len(V)} vertices): mesh is not closed ({len(bad)} unpaired directed edges)"
+    for a in p[::3]:
+        w = winding_number(V, F, a)
+        if abs(abs(w) - 1) > 1e-3:
+            return f"big grid (C20 chain along (1,1,1), sep 0.2): atom at {a.tolist()} is not enclosed by the surface (winding number {w:.3f})"
+    res = float(np.abs(pro.rho(V.astype(np.float32)) - 0.002).max())
+    if res > 0.3 * 0.002:
+        return f"big grid (C20 chain, sep 0.2): a vertex has density {res / 0.002:.3g} isovalues away from the isovalue"
+    return None
+
+
 def judge_wrappers(seed):
     """user-level wrappers: Molecule.promolecule_density_isosurface and Crystal.hirshfeld_surfaces return closed trimesh objects
     around the right atoms"""
@@ -502,6 +528,7 @@ def plan(ctx, budget):
     for name in (("water", "acetic", "rod") if budget == "quick" else tuple(MOLS) * 3):
         yield ("promolecule:" + name, rng.randrange(1 << 30))
     yield ("wrappers", 0)
+    yield ("big-grid", rng.randrange(1 << 30))
 
 
 def run_case(c):
@@ -514,6 +541,8 @@ def run_case(c):
         return judge_quantised(seed), 100
     if kind == "noise":
         return judge_noise(seed), 100
+    if kind == "big-grid":
+        return judge_big_grid(seed), 100
     if kind.startswith("promolecule:"):
         return judge_promolecule(kind.split(":")[1], seed), 100
     return judge_wrappers(seed), 100
